@@ -326,8 +326,34 @@ class CallMixin:
                 from .stmts import _ConcreteIter
 
                 return _ConcreteIter(out)
+        if qual == "itertools.groupby" and args:
+            items = self.concrete_iter(args[0])
+            keyf = args[1] if len(args) > 1 else kwargs.get("key")
+            if items is not None:
+                keys = [self.call_value(keyf, None, [x], {}, node, fr) if keyf is not None else x for x in items]
+                if not any(contains_term(k) for k in keys):
+                    groups = []
+                    for k, x in zip(keys, items):
+                        if groups and self._same_value(groups[-1][0], k):
+                            groups[-1][1].append(x)
+                        else:
+                            groups.append((k, [x]))
+                    from .stmts import _ConcreteIter
+
+                    return _ConcreteIter([(k, list(g)) for k, g in groups])
+        if qual == "itertools.islice" and args and len(args) >= 2 and all(isinstance(x, int) or x is None for x in args[1:]) and not kwargs:
+            items = self.concrete_iter(args[0])
+            if items is not None:
+                from .stmts import _ConcreteIter
+
+                return _ConcreteIter(list(items)[slice(*args[1:])])
         if qual == "functools.partial" and args:
             return Partial(args[0], args[1:], kwargs)
+        if qual == "collections.defaultdict" and len(args) == 2 and not kwargs and isinstance(args[1], dict) and isinstance(args[0], BuiltinRef) \
+                and args[0].name in ("list", "set", "dict", "int"):
+            from collections import defaultdict
+
+            return defaultdict({"list": list, "set": set, "dict": dict, "int": int}[args[0].name], args[1])
         if qual == "collections.defaultdict" and len(args) <= 1 and not kwargs:
             from collections import defaultdict
 
@@ -383,6 +409,13 @@ class CallMixin:
                 fi.name.startswith("__") and fi.name.endswith("__")) and fi.module.name == self.opts.root_module and not fi.is_generator:
             return True
         return False
+
+    @staticmethod
+    def _same_value(a, b) -> bool:
+        try:
+            return bool(a == b)
+        except Exception:
+            return a is b
 
     def call_function(self, fi: FuncInfo, args, kwargs, node, fr, closure=None, self_value=None):
         from .interp import Cell, Frame, _Return
